@@ -354,7 +354,12 @@ func runChild(p Params) (res Result) {
 			}
 		case 3: // periodic tick (not counted: how many sessions report depends on the registrations)
 			if !counting.Load() && !stopAll.Load() {
-				d.G.VerifPerio().VerifTick(3600 * time.Second)
+				// mostly the period the sessions use; now and then one that has no group (a tick that outlived its group)
+				per := 3600 * time.Second
+				if r.Intn(6) == 0 {
+					per = 7200 * time.Second
+				}
+				d.G.VerifPerio().VerifTick(per)
 			}
 		}
 		posted.Add(1)
@@ -572,7 +577,11 @@ func runChild(p Params) (res Result) {
 	}
 	rwg.Wait()
 	// the kernel goes last
-	_ = d.Close()
+	if err := d.Close(); err != nil {
+		// the driver's own goroutines (periodic server, one ticker goroutine per period group) belong to "all of its
+		// goroutines and timers" just as the PFCP server's do
+		fail("stop-hang:internal/forwarder/perio", "10 s after the driver was closed its periodic server or a ticker goroutine is still running: %v", err)
+	}
 	if st.Dead != nil {
 		fail(st.Dead.Key, "UPF fatal exit: %.600s", st.Dead.Msg)
 	}
